@@ -164,9 +164,11 @@ package lang
 //@   | && (v.Tag == ValueObj ==> v.Obj != nil && *v.Obj != nil)
 //@   | && (v.Tag == ValueNativeFn ==> v.NativeFn != nil)
 //@   | && (v.Tag == ValueFn ==> v.Fn != nil)
-//@   | && (v.Tag == ValueNil && v.ParentObj != nil ==> v.Str != nil || v.Num != nil)
+//@   | && (v.ParentObj != nil ==> v.Str != nil || v.Num != nil)
 //@   | && v.Tag <= ValueUnknown
 //@ typeinv Value wfV
+// Kinds that cannot hold members.
+//@ spec func scalarTag(t ValueTag) bool = t == ValueStr || t == ValueNum || t == ValueBool || t == ValueRegex || t == ValueFn || t == ValueNativeFn
 
 // The coercion tables of DESIGN.md section 3.1 (transcribed from the tables, not from the code).
 //@ spec func pfOK(s string) bool = smt("pf_ok", bool, s)
@@ -605,7 +607,7 @@ package lang
 //@   ensures[C05] match-result: (expr.OpToken.Tag == Tilde || expr.OpToken.Tag == BangTilde) && err == nil ==> result0.Value.Tag == ValueBool && *result0.Value.Bool == (reMatch(*$R.Value.Str, specStr($L.Value)) != (expr.OpToken.Tag == BangTilde))
 //@   ensures evok: evOK(e)
 
-//@ func Evaluator.evalAssignment [C01,C08,C11]
+//@ func Evaluator.evalAssignment [C01,C08,C09,C11]
 //@   modifies valueHeap
 //@   requires evOK(e) && expr != nil && left != nil && right != nil && !$faulted
 //@   updates $faulted
@@ -613,6 +615,7 @@ package lang
 //@   ensures[C01] errkind: err == nil || isRT(err)
 //@   ensures[C08] stack-untouched: e.stackTop == old(e.stackTop)
 //@   ensures[C11] fault-latched: $faulted <==> err != nil
+//@   ensures[C09,C11] store-on-scalar-is-error: old(left.Value.ParentObj) != nil && scalarTag(old(left.Value.ParentObj.Tag)) ==> err != nil
 
 //@ func Evaluator.callFunction [C01,C08,C11]
 //@   modifies valueHeap, e.stackTop, e.returnVal
@@ -678,13 +681,14 @@ package lang
 //@   modifies nothing
 //@   loop 0 invariant index: 0 <= i && fresh(buf) && !$faulted
 
-//@ func Evaluator.createSpeculativeObjects [C01,C11]
+//@ func Evaluator.createSpeculativeObjects [C01,C09,C11]
 //@   modifies valueHeap
-//@   requires e != nil && specObj != nil && specObj.Value.Tag == ValueNil && specObj.Value.ParentObj != nil && !$faulted
+//@   requires e != nil && specObj != nil && specObj.Value.ParentObj != nil && !$faulted
 //@   updates $faulted
 //@   ensures[C01] result-or-error: err == nil ==> result0 != nil
 //@   ensures[C01] errkind: err == nil || isPlainErr(err)
 //@   ensures[C11] fault-latched: $faulted <==> err != nil
+//@   ensures[C09,C11] scalar-parent-refuses: scalarTag(old(specObj.Value.ParentObj.Tag)) ==> err != nil
 
 //@ func copyValue [C01,C09,C11]
 //@   requires from != nil && to != nil && !$faulted
@@ -717,6 +721,7 @@ package lang
 //@   ensures[C09] object-own-member: v.Tag == ValueObj && err == nil && has(*v.Obj, specStr(member)) ==> result0 == (*v.Obj)[specStr(member)]
 //@   ensures[C16] object-absent-without-prototype: v.Tag == ValueObj && err == nil && !has(*v.Obj, specStr(member)) && v.Proto == nil ==> result0 == nil
 //@   ensures[C09] string-index: v.Tag == ValueStr && member.Tag == ValueNum ==> err == nil && result0 != nil && fresh(result0)
+//@   ensures[C09,C11] detached-results-remember-receiver: err == nil && result0 != nil && fresh(result0) && ((v.Tag == ValueStr && member.Tag == ValueNum) || result0.Value.Tag == ValueNativeFn || result0.Value.Tag == ValueFn) ==> result0.Value.ParentObj == v
 //@   ensures[C01] errkind: err == nil || isPlainErr(err)
 //@   ensures[C11] fault-latched: $faulted <==> err != nil
 
